@@ -568,16 +568,16 @@ func vfFamAForeignOffer(variant int) string {
 // invalid classes (C03): text edits of a valid description, as the property lists them
 
 var vfFamABadNames = []string{
-	"",               // 0: none
-	"no-mid",         // every a=mid line removed
-	"no-ice-ufrag",   // every a=ice-ufrag line removed
-	"no-ice-pwd",     // every a=ice-pwd line removed
-	"no-fingerprint", // every a=fingerprint line removed
-	"bad-candidate",  // an unparsable a=candidate line in the first media section
-	"rtx-apt",        // an RTX fmtp whose apt is not a number
-	"truncated",      // cut in the middle of a line (unparsable)
-	"bad-origin",     // o= line with too few fields (unparsable)
-	"no-media",       // every media section removed (no ICE credentials left)
+	"",                 // 0: none
+	"no-mid",           // every a=mid line removed
+	"no-ice-ufrag",     // every a=ice-ufrag line removed
+	"no-ice-pwd",       // every a=ice-pwd line removed
+	"no-fingerprint",   // every a=fingerprint line removed
+	"bad-candidate",    // an unparsable a=candidate line in the first media section
+	"rtx-apt",          // an RTX fmtp whose apt is not a number
+	"truncated",        // cut in the middle of a line (unparsable)
+	"bad-origin",       // o= line with too few fields (unparsable)
+	"no-media",         // every media section removed (no ICE credentials left)
 	"half-fingerprint", // fingerprint attribute without a value part
 }
 
@@ -631,11 +631,11 @@ func vfFamAMunge(bi int, text string) (string, bool) {
 		}
 		return text[:j] + "xyz" + text[k:], true
 	case "truncated":
-		i := strings.Index(text, "\nt=")
+		i := strings.Index(text, "\nm=")
 		if i < 0 {
 			return "", false
 		}
-		return text[:i+2], true // ends inside the t= line, without a value
+		return text[:i+5], true // ends inside the first m= line ("m=au"): unparsable
 	case "bad-origin":
 		i := strings.Index(text, "o=")
 		j := strings.Index(text, "\ns=")
@@ -832,11 +832,12 @@ func (s *vfFamASim) progress(r *rapid.T) (vfFamAOp, bool) {
 }
 
 type vfFamAGenOpts struct {
-	MaxLen   int
-	Rollback int   // percent of steps that are a rollback aimed at the predicted state (C02); 0 = only the random ones
-	BadProb  int   // percent of set-ops that carry an invalid class (C03); 0 for C01
-	BadAllow []int // invalid-class indices that may be drawn
-	Invalid  bool  // allow the out-of-enum description type
+	MaxLen         int
+	Rollback       int   // percent of steps that are a rollback aimed at the predicted state (C02); 0 = only the random ones
+	BadProb        int   // percent of set-ops that carry an invalid class (C03); 0 for C01
+	BadAllow       []int // invalid-class indices that may be drawn for SetLocalDescription
+	BadAllowRemote []int // ... for SetRemoteDescription (classes recorded as known findings are left out)
+	Invalid        bool  // allow the out-of-enum description type
 }
 
 func vfFamAGen(r *rapid.T, o vfFamAGenOpts) vfFamACase {
@@ -879,10 +880,13 @@ func vfFamAGen(r *rapid.T, o vfFamAGenOpts) vfFamACase {
 			if rapid.IntRange(0, 99).Draw(r, "badp") < o.BadProb {
 				if o.Invalid && rapid.IntRange(0, 11).Draw(r, "invalidType") == 0 {
 					op.T = vfFamATInvalid
-				} else if len(o.BadAllow) > 0 {
-					op.Bad = rapid.SampledFrom(o.BadAllow).Draw(r, "bad")
-					if op.K == vfFamAKSetRemote && op.Src%4 == 1 && op.T != vfFamATOffer {
-						op.Src -= 1
+				} else {
+					allow := o.BadAllow
+					if op.K == vfFamAKSetRemote {
+						allow = o.BadAllowRemote
+					}
+					if len(allow) > 0 {
+						op.Bad = rapid.SampledFrom(allow).Draw(r, "bad")
 					}
 				}
 			}
